@@ -405,6 +405,11 @@ def r_overrides(ck: Checker) -> None:
             for k, v in zip(dct.keys, dct.values):
                 if k is None:
                     inner = v if isinstance(v, ast.Dict) else local_dicts.get(norm(v))
+                    if inner is dct and isinstance(v, ast.Name):
+                        # x = {TAG: .., **x}: the spread is the literal bound to x before this statement
+                        earlier = [st_.value for st_ in walk_body(fn.body) if isinstance(st_, ast.Assign) and len(st_.targets) == 1 and norm(st_.targets[0]) == v.id
+                                   and isinstance(st_.value, ast.Dict) and st_.value is not dct and (st_.lineno, st_.col_offset) < (dct.lineno, dct.col_offset)]
+                        inner = earlier[-1] if len(earlier) == 1 else None
                     if inner is None or inner is dct:
                         ks.append(None)
                     else:
